@@ -470,6 +470,17 @@ func (c *scen) masterListScenarios() {
 		c.fail(err)
 		addML("genuine", "master-list-with-unsigned-foreign-certificate-embedded", "genuine master list with an additional self-signed CA certificate in SignedData.certificates (outside the signed certList)", ml2, c.csca.Cert)
 	}
+	if advCA, _ := c.adversary(); advCA != nil {
+		// a forged list signed under a self-signed CA that copies the trusted root's NAME, key identifier and serial
+		// number (its own key), embedded in SignedData.certificates next to its list signer: names prove nothing
+		if advMLS, err := advCA.IssueMLSigner(CertSpec{Rand: c.sub(52), Subject: DN("NL", "State of the Netherlands", "Master List Signer"), KeySlot: slotOtherDS}); err != nil {
+			c.fail(err)
+		} else {
+			forged, err := BuildMasterList(advMLS, append(append([][]byte{}, certs...), advCA.Cert), MasterListSpec{SigningTime: &st, ExtraCerts: [][]byte{advCA.Cert}})
+			c.fail(err)
+			addML("forgery", "master-list-signed-under-embedded-ca-with-the-roots-name", "forged master list whose signer chains to an embedded self-signed CA with the trusted root's subject name, key identifier and serial number but another key", forged, c.csca.Cert)
+		}
+	}
 	addML("forgery", "master-list-foreign-root", "the same master list checked against the DE CSCA as root", ml, de.Cert)
 	bad, err := BuildMasterList(mls, certs, MasterListSpec{SigningTime: &st, SD: SignedDataSpec{Signers: []SignerSpec{{ID: &mls.Entity, SigningTime: &st, CorruptSignature: true}}}})
 	c.fail(err)
